@@ -21,6 +21,7 @@ RULE = ("for each sampled (scenario with 2-4 simulators, latency schedule, trans
         "quick runs a seeded sample of the points of each execution, thorough all; one run per "
         "point; distinct+non-trivial = distinct (scenario, schedule, point) whose fault fired")
 LOCAL = ("stock", "gated")
+EXC_CLASSES = (None, None, "TypeError", "ValueError", "KeyError", "RuntimeError")
 REMOTE_KINDS = ("raise", "kill_in_handler", "kill_after_reply", "torn_reply", "reset_in_handler", "reset_after_reply")
 C14_PROFILES = ("zero", "uniform", "per_sim", "heavy", "slow_req", "ties", "slowlink", "slowlink")
 
@@ -73,7 +74,13 @@ def fault_points(sc, hist) -> List[Dict[str, Any]]:
         _, func, sid, tau, args, n = r
         kinds = ("raise",) if tr[sid] in LOCAL else REMOTE_KINDS
         for k in kinds:
-            pts.append({"sid": sid, "req": n, "phase": "pre", "kind": k, "func": func})
+            pt = {"sid": sid, "req": n, "phase": "pre", "kind": k, "func": func}
+            if k == "raise":
+                # the exception class a failing simulator raises is its own business
+                x = EXC_CLASSES[h64(sid, n, func, "exc") % len(EXC_CLASSES)]
+                if x is not None:
+                    pt["exc"] = x
+            pts.append(pt)
     return pts
 
 
@@ -104,6 +111,8 @@ def check_one(sc, sp, f, last_req=None, f2=None):
             sid = f["sid"]
     oc = r.outcome
     feats = {"fault": f["kind"], "func": f["func"], "transport": "local" if tr[sid] in LOCAL else "remote"}
+    if f.get("exc"):
+        feats["exc"] = f["exc"]
     if f2 is not None:
         feats["second_fault"] = f2["kind"]
     q_ret = next((i for i, h in enumerate(hist) if h[0] == "run_returned"), len(hist) - 1)
